@@ -287,7 +287,7 @@ def confirm_failures(report, native_confirm=None):
         report.time_engine("native_replay", time.time() - t0)
         m = re.search(r"(/// Test generated for harness.*?\n    \}\n)", src, re.S)
         art = {
-            "engine": "kani concrete playback",
+            "engine": "kani concrete playback", "property": report.prop, "prelude": crate.prelude, "astro": crate.astro,
             "harness": h.name, "crate": crate.name, "backend": crate.backend,
             "failed_checks": r.failed[:6],
             "harness_source": h.render(),
